@@ -6,7 +6,7 @@ cd /verif
 names=("$@"); [ ${#names[@]} -eq 0 ] && names=($(ls seeded))
 bad=0
 for n in "${names[@]}"; do
-  d=seeded/$n; prop=$(jq -r .property $d/meta.json 2>/dev/null); [ -z "$prop" -o "$prop" = null ] && prop=${n%%-*}
+  d=seeded/$n; if [ "$(jq -r '.obsolete // empty' $d/meta.json 2>/dev/null)" != "" ]; then printf "%-8s obsolete on the final tree (see meta.json)\n" $n; continue; fi; prop=$(jq -r .property $d/meta.json 2>/dev/null); [ -z "$prop" -o "$prop" = null ] && prop=${n%%-*}
   ./mut.sh $d/patch.diff $prop quick > $d/check_quick.log 2>&1; rc=$?; echo $rc > $d/check_quick.rc
   v=$(grep -c '^VIOLATION' $d/check_quick.log)
   printf "%-8s %-4s rc=%s violations=%s %s\n" $n $prop $rc $v "$(grep -m1 '^VIOLATION' $d/check_quick.log | sed 's/.*key=//' | cut -c1-90)"
